@@ -158,6 +158,9 @@ def text_of(case):
     lines = [f"BEGIN:{cname}", "UID:c14@example.com"]
     if st is not None:
         p, v = S.ical_dt(st)
+        if p == ";VALUE=DATE":
+            # the same DATE start in the spellings the parser accepts (the text decides what the value is)
+            p = [";VALUE=DATE", "", ";VALUE=date", ";X-FOO=BAR"][len(v + str(du) + str(en) + str(len(als))) % 4]
         lines.append(f"DTSTART{p}:{v}")
     if en is not None:
         p, v = S.ical_dt(en)
